@@ -221,6 +221,9 @@ def nodeBranches (n : Node) (inp : Edge) (out : Edge) : List String :=
       (if all.any (fun p => cf.any (fun kv => (aget p.fields kv.1).isSome)) then ["field-kept"] else []) ++
       (if all.any (fun p => ct.any (fun kv => (aget p.tags kv.1).isNone)) then ["tag-set"] else []) ++
       (if all.any (fun p => ct.any (fun kv => aget p.tags kv.1 == some "")) then ["tag-empty-set"] else []) ++
+      (match inp with
+        | .batch bs => if bs.any (fun b => ct.any (fun kv => aget b.tags kv.1 == some "")) then ["begin-tag-empty-set"] else []
+        | .stream _ => []) ++
       (if all.any (fun p => ct.any (fun kv => tagOr p.tags kv.1 ≠ "")) then ["tag-kept"] else []) ++ common)
   | .delete df dt =>
     let dimDel := match inp with
